@@ -195,8 +195,8 @@ func (e *env) pairCheck(cases []pairCase, main bool) {
 			// the probe run twice in one fresh process (two fresh VMs) already shows two outcomes: what its own first
 			// run left behind is visible to the second
 			c.Eval("pair:"+pc.A.Src+"\x00"+pc.B.Src, true)
-			what := fmt.Sprintf("the program %s run on two successive fresh VMs of one fresh process shows different outcomes: first %q, second %q", pc.B.Name,
-				clip(pc.B.alone.key(pc.B.MaskLog), 300), clip(pc.B.selfAfter.key(pc.B.MaskLog), 300))
+			what := fmt.Sprintf("the program %s run on two successive fresh VMs of one fresh process shows different outcomes: first %q, second %q; %s", pc.B.Name,
+				clip(pc.B.alone.key(pc.B.MaskLog), 300), clip(pc.B.selfAfter.key(pc.B.MaskLog), 300), diffAt(pc.B.alone.key(pc.B.MaskLog), pc.B.selfAfter.key(pc.B.MaskLog)))
 			if pc.Sig != "" {
 				c.Violation(pc.Sig, what, repCase{Kind: "pair", P: stripped(pc.B), A: ptr(stripped(pc.A)), Mode: pc.Sig})
 			} else {
@@ -288,6 +288,16 @@ func (e *env) channelProgsAgainstCLI(cases []pairCase) {
 }
 
 func ptr[T any](v T) *T { return &v }
+
+// diffAt: where two outcomes part (long diagnostics share a long prefix)
+func diffAt(a, b string) string {
+	i := 0
+	for i < len(a) && i < len(b) && a[i] == b[i] {
+		i++
+	}
+	lo := max(0, i-60)
+	return fmt.Sprintf("they part at byte %d: %q vs %q", i, clip(a[lo:], 200), clip(b[lo:], 200))
+}
 
 func featureOf(p *prog) string {
 	switch {
